@@ -1,6 +1,7 @@
 ----------------------------- MODULE MC_Balance -----------------------------
 EXTENDS Balance
 AmtsA == <<1, 2, -4, 8>>
+AmtsOdd == <<1, 3, -5, 7>>     \* odd amounts: with a unit of 1/8 every contribution has a third decimal (rounding must come after summing)
 \* single-element mode: foods with a resolved amount of the element (positive, negative, zero), and the
 \* element itself (path <<2>>) can be logged directly
 XNameA == <<2>>
